@@ -35,6 +35,9 @@ MUTANTS = {
     "block_even_if_runnable": (H, "if running_threads() == max_concurrency or len(runnable_xns_ids) == 0:", "if running_threads() >= 1 or len(runnable_xns_ids) == 0:", ["C08"]),
     "spin_no_wait": (H, "        if len(runnable_xns_ids) == 0:\n            logger.debug(\"No runnable Nodes available\")\n            continue\n",
                      "        if len(runnable_xns_ids) == 0:\n            logger.debug(\"No runnable Nodes available\")\n            runnable_xns_ids = set()\n            continue\n", []),
+    "main_thread_to_pool_when_caller_is_not_the_main_thread": (H, "        if xn.resource == Resource.thread:", "        import threading as _t\n        if xn.resource == Resource.thread or (xn.resource == Resource.main_thread and _t.current_thread() is not _t.main_thread()):", ["C04", "C16"]),
+    "touch_values": (N, "        if self.id in results:\n            return reduce(", "        if self.id in results and results[self.id] != ():\n            return reduce(", ["C01"]),
+    "deepcopy_setup_writeback": (D, "                self.results[node_id] = result\n\n        return exec_nodes, results, profiles\n\n    def __call__", "                self.results[node_id] = deepcopy(result)\n\n        return exec_nodes, results, profiles\n\n    def __call__", ["C11"]),
     "main_thread_to_pool": (H, "        if xn.resource == Resource.thread:", "        if xn.resource in (Resource.thread, Resource.main_thread):", ["C04"]),
     "forget_successor": (G, "            if self.in_degree[new_root_node] == 1\n        }", "            if self.in_degree[new_root_node] == 1 and len(self) % 5 != 0\n        }", ["C09"]),
     "drop_subgraph_tables": (G, "        graph.debug.update(self.debug)\n", "", ["C13"]),
